@@ -128,14 +128,13 @@ func (bs *baseServer) Init() {
 func (bs *baseServer) ComputePath(options config.AttachOptionsInterface) string {
 	path := "/engine.io"
 
-	if options != nil {
-		if options.GetRawPath() != nil {
-			path = strings.TrimRight(options.Path(), "/")
-		}
-		if options.GetRawAddTrailingSlash() == nil || options.AddTrailingSlash() {
-			// normalize path
-			path += "/"
-		}
+	if options != nil && options.GetRawPath() != nil {
+		path = strings.TrimRight(options.Path(), "/")
+	}
+	// the trailing slash is the default also when no attach options are given
+	if options == nil || options.GetRawAddTrailingSlash() == nil || options.AddTrailingSlash() {
+		// normalize path
+		path += "/"
 	}
 
 	return path
